@@ -3,7 +3,13 @@ now() as seen by redress.extras.http is frozen at 2026-01-01T00:00:00Z so that H
 answer of the stdlib date parser (the oracle of the model) is computed here and returned with each result."""
 import json
 import math
+import os
 import sys
+import time as _time
+
+# a process east of Greenwich: a Retry-After date without a zone means GMT, whatever the local zone is
+os.environ["TZ"] = "JST-9"
+_time.tzset()
 from collections.abc import Mapping
 from datetime import UTC, datetime, timedelta
 from email.utils import parsedate_to_datetime
@@ -45,8 +51,8 @@ def date_oracle(text):
     raw = text.strip()
     try:
         p = parsedate_to_datetime(raw)
-    except (TypeError, ValueError, IndexError):
-        return None
+    except (TypeError, ValueError, IndexError, OverflowError):
+        return None          # not a date (OverflowError: a numeric field too large for the C-level date arithmetic)
     except BaseException as e:  # noqa: BLE001 - an exception type the code does not catch
         return ["oracle_raised", type(e).__name__]
     if p is None:
